@@ -7,10 +7,12 @@ import (
 	"fmt"
 	"math"
 	"testing"
+	"time"
 
 	"github.com/blugelabs/bluge"
 	"github.com/blugelabs/bluge/numeric"
 	"github.com/blugelabs/bluge/numeric/geo"
+	segment "github.com/blugelabs/bluge_segment_api"
 	"pgregory.net/rapid"
 
 	"verifharness/vlib"
@@ -174,8 +176,7 @@ func TestC10CodecExhaustive(t *testing.T) {
 	shard, nshards := vlib.Shard()
 	bi := intBoundaries()
 	bf := floatBoundaries()
-	ev.Extra("exhaustive_int_boundary_values", len(bi))
-	ev.Extra("exhaustive_float_boundary_values", len(bf))
+	ev.Extra("exhaustive_boundary_set_sizes", fmt.Sprintf("%d int64 values, %d float64 values", len(bi), len(bf)))
 	ev.Extra("exhaustive", "every ordered pair of the int64 boundary set at every shift 0..63 and every ordered pair of the float64 boundary set is evaluated (rows are divided among the shards; the exhaustive_* counters are sums over all shards)")
 	// encodings of every boundary value at every shift, each one checked for its round trip
 	enc := make([][][]byte, len(bi))
@@ -395,14 +396,158 @@ func propGeo(c GeoCase) *vlib.Failure {
 		if err != nil || uint64(back) != mh {
 			return vlib.Failf("geo-roundtrip", "geo point (%v,%v): hash %#x, field value %x decodes to %#x, %v", c.Lon, c.Lat, mh, fld.Value(), uint64(back), err)
 		}
-		seen := map[uint]bool{}
-		var fail *vlib.Failure
-		fld.Analyze(0)
-		fld.EachTerm(func(term interface {
-			Term() []byte
-		}) {
-		})
-		_ = seen
-		return fail
+		return checkTokens(fld, back, 9, fmt.Sprintf("geo point (%v,%v)", c.Lon, c.Lat))
 	})
 }
+
+// checkTokens: the tokens a numeric-like field contributes to the index are exactly the codings
+// of its value at shift 0, step, 2*step, ... < 64, and each decodes to the truncated value.
+func checkTokens(fld *bluge.TermField, v int64, step uint, what string) *vlib.Failure {
+	fld.Analyze(0)
+	got := map[string]int{}
+	fld.EachTerm(func(ft segment.FieldTerm) { got[string(ft.Term())]++ })
+	n := 0
+	for s := uint(0); s < 64; s += step {
+		n++
+		want := numeric.MustNewPrefixCodedInt64(v, s)
+		if got[string(want)] != 1 {
+			return vlib.Failf("index-tokens", "%s: value %d: token for shift %d (%x) present %d times among %d tokens", what, v, s, []byte(want), got[string(want)], len(got))
+		}
+		gs, err := want.Shift()
+		if err != nil || gs != s {
+			return vlib.Failf("prefix-shift", "%s: indexed token %x of value %d at shift %d: Shift() = %d, %v", what, []byte(want), v, s, gs, err)
+		}
+		back, err := want.Int64()
+		if err != nil || back != truncated(v, s) {
+			return vlib.Failf("prefix-roundtrip", "%s: indexed token %x of value %d at shift %d decodes to %d, %v; want %d", what, []byte(want), v, s, back, err, truncated(v, s))
+		}
+	}
+	if len(got) != n {
+		return vlib.Failf("index-tokens", "%s: value %d: %d distinct tokens, want %d (one per shift step %d)", what, v, len(got), n, step)
+	}
+	return nil
+}
+
+type TokenCase struct {
+	Kind  string `json:"kind"` // "num" (V = float bits) | "date" (V = ns)
+	Value int64  `json:"value"`
+}
+
+func propTokens(c TokenCase) *vlib.Failure {
+	return vlib.Guard("field.Analyze", func() *vlib.Failure {
+		switch c.Kind {
+		case "num":
+			x := math.Float64frombits(uint64(c.Value))
+			if !finite(x) {
+				return nil
+			}
+			return checkTokens(bluge.NewNumericField("f", x), numeric.Float64ToInt64(x), 4, fmt.Sprintf("numeric field %v", x))
+		default:
+			tm := time.Unix(0, c.Value)
+			fld := bluge.NewDateTimeField("d", tm)
+			back, err := bluge.DecodeDateTime(fld.Value())
+			if err != nil || back.UnixNano() != c.Value {
+				return vlib.Failf("date-roundtrip", "DecodeDateTime(NewDateTimeField(%d ns).Value()) = %v (%d ns), %v", c.Value, back, back.UnixNano(), err)
+			}
+			return checkTokens(fld, c.Value, 4, fmt.Sprintf("date field %d ns", c.Value))
+		}
+	})
+}
+
+func TestC10TokensAndGeo(t *testing.T) {
+	shard, nshards := vlib.Shard()
+	n := 0
+	for i, v := range intBoundaries() {
+		if i%nshards != shard {
+			continue
+		}
+		c := TokenCase{"date", v}
+		if vlib.Report(t, ev, "tokens", c, propTokens(c)) {
+			return
+		}
+		n++
+	}
+	for i, x := range floatBoundaries() {
+		if i%nshards != shard {
+			continue
+		}
+		c := TokenCase{"num", int64(math.Float64bits(x))}
+		if vlib.Report(t, ev, "tokens", c, propTokens(c)) {
+			return
+		}
+		n++
+	}
+	ev.Evals(n)
+	ev.AddExtra("exhaustive_boundary_values_token_sets", n)
+	g := 0
+	for i, p := range geoBoundaryPoints() {
+		if i%nshards != shard {
+			continue
+		}
+		c := GeoCase{Lon: p[0], Lat: p[1], X: uint64(i) * 0x9e3779b9, Y: ^uint64(i)}
+		if vlib.Report(t, ev, "geo", c, propGeo(c)) {
+			return
+		}
+		g++
+	}
+	ev.Evals(g)
+	ev.AddExtra("geo_boundary_points", g)
+	vlib.Check(t, 3000, 60000, func(rt *rapid.T) {
+		c := GeoCase{X: rapid.Uint64().Draw(rt, "x"), Y: rapid.Uint64().Draw(rt, "y")}
+		if rapid.Bool().Draw(rt, "edge") {
+			c.Lon = rapid.SampledFrom([]float64{-180, -90, 0, 90, 180}).Draw(rt, "lonEdge") + rapid.Float64Range(-1e-6, 1e-6).Draw(rt, "lonEps")
+			c.Lat = rapid.SampledFrom([]float64{-90, -45, 0, 45, 90}).Draw(rt, "latEdge") + rapid.Float64Range(-1e-6, 1e-6).Draw(rt, "latEps")
+			c.Lon = math.Max(-180, math.Min(180, c.Lon))
+			c.Lat = math.Max(-90, math.Min(90, c.Lat))
+		} else {
+			c.Lon = rapid.Float64Range(-180, 180).Draw(rt, "lon")
+			c.Lat = rapid.Float64Range(-90, 90).Draw(rt, "lat")
+		}
+		f := propGeo(c)
+		ev.Case(vlib.Canon(c), true, "geo")
+		vlib.Report(rt, ev, "geo", c, f)
+	})
+}
+
+// -------------------------------------------------------------------------------------------
+
+var replayFns = map[string]vlib.ReplayFn{
+	"codec-int": func(raw json.RawMessage) *vlib.Failure {
+		var c IntPair
+		if f := vlib.Decode(raw, &c); f != nil {
+			return f
+		}
+		return propIntPair(c)
+	},
+	"codec-float": func(raw json.RawMessage) *vlib.Failure {
+		var c FloatPair
+		if f := vlib.Decode(raw, &c); f != nil {
+			return f
+		}
+		return propFloatPair(c)
+	},
+	"tokens": func(raw json.RawMessage) *vlib.Failure {
+		var c TokenCase
+		if f := vlib.Decode(raw, &c); f != nil {
+			return f
+		}
+		return propTokens(c)
+	},
+	"geo": func(raw json.RawMessage) *vlib.Failure {
+		var c GeoCase
+		if f := vlib.Decode(raw, &c); f != nil {
+			return f
+		}
+		return propGeo(c)
+	},
+	"range": func(raw json.RawMessage) *vlib.Failure {
+		var c RangeCase
+		if f := vlib.Decode(raw, &c); f != nil {
+			return f
+		}
+		return propRange(c, nil)
+	},
+}
+
+func TestReplay(t *testing.T)  { vlib.ReplayMain(t, ev, replayFns) }
+func TestRegress(t *testing.T) { vlib.RegressMain(t, ev, replayFns) }
